@@ -56,6 +56,19 @@ def rrel_standalone():
     return rrel_expression, EOF
 
 
+def _visited_obj(rrel_node, obj, first_element):
+    """
+    Returns the object to be recorded as visited for the given RREL node. An
+    expression which starts at the model root only does not visit the object
+    the search is started from.
+    """
+    if first_element and not rrel_node.start_locally():
+        from textx import get_model
+
+        return get_model(obj)
+    return obj
+
+
 class RRELBase:
     def __init__(self):
         pass
@@ -86,8 +99,8 @@ class RRELBase:
             intermediate matches. The returned obj can be
             Postponed.
         """
-        if not allowed(obj, lookup_list, self):  # also adjusts visited objs
-            return  # recursion stopper
+        if not allowed(_visited_obj(self, obj, first_element), lookup_list, self):
+            return  # recursion stopper (also adjusts visited objs)
 
         obj, lookup_list, matched_path = self.apply(
             obj, lookup_list, matched_path, first_element
@@ -259,8 +272,8 @@ class RRELBrackets(RRELBase):
     def get_next_matches(
         self, obj, lookup_list, allowed, matched_path, first_element=False
     ):
-        if not allowed(obj, lookup_list, self):  # also adjusts visited objs
-            return  # recursion stopper
+        if not allowed(_visited_obj(self, obj, first_element), lookup_list, self):
+            return  # recursion stopper (also adjusts visited objs)
         yield from self.seq.get_next_matches(
             obj, lookup_list, allowed, matched_path, first_element
         )
@@ -322,8 +335,8 @@ class RRELSequence(RRELBase):
     def get_next_matches(
         self, obj, lookup_list, allowed, matched_path, first_element=False
     ):
-        if not allowed(obj, lookup_list, self):  # also adjusts visited objs
-            return  # recursion stopper
+        if not allowed(_visited_obj(self, obj, first_element), lookup_list, self):
+            return  # recursion stopper (also adjusts visited objs)
         for ip in self.paths:
             yield from ip.get_next_matches(
                 obj, lookup_list, allowed, matched_path, first_element
@@ -355,15 +368,8 @@ class RRELZeroOrMore(RRELBase):
 
         def get_from_zero_or_more(obj, lookup_list, matched_path, first_element=False):
             assert self.start_locally() or self.start_at_root()  # or, not xor
-            # An expression which starts at the model root only does not
-            # visit the object the search is started from.
-            visited_obj = obj
-            if first_element and not self.start_locally():
-                from textx import get_model
-
-                visited_obj = get_model(obj)
-            if not allowed(visited_obj, lookup_list, self):  # also adjusts visited objs
-                return  # recursion stopper
+            if not allowed(_visited_obj(self, obj, first_element), lookup_list, self):
+                return  # recursion stopper (also adjusts visited objs)
             if first_element:
                 if self.start_locally():
                     yield obj, lookup_list, matched_path
